@@ -71,7 +71,9 @@ pub struct CanonicalFormatter {
 /// ```
 #[derive(Debug, Default)]
 struct Object {
-    obj: BTreeMap<Vec<u8>, Vec<u8>>,
+    /// The members seen so far, as (serialized key, serialized value), ordered by the key's
+    /// string content (see `sort_key`).
+    obj: BTreeMap<Vec<u8>, (Vec<u8>, Vec<u8>)>,
     next_key: Vec<u8>,
     next_value: Vec<u8>,
     key_done: bool,
@@ -115,6 +117,30 @@ impl CanonicalFormatter {
 
 /// Wraps `serde_json::CompactFormatter` to use the appropriate writer (see
 /// `CanonicalFormatter::writer`).
+/// Canonical JSON orders the members of an object by their keys, that is by the content of the key
+/// strings. `serialized` is a key as it will be written: surrounded by quotation marks, with
+/// quotation marks and backslashes escaped by a backslash. Ordering by those bytes would put
+/// `"a!"` before `"a"` (the closing quotation mark sorts after `!`) and treat escaped characters as
+/// backslashes, so the quotes are stripped and the escapes undone to get the key to order by.
+fn sort_key(serialized: &[u8]) -> Vec<u8> {
+    let inner = match serialized {
+        [b'"', inner @ .., b'"'] => inner,
+        other => other,
+    };
+    let mut key = Vec::with_capacity(inner.len());
+    let mut bytes = inner.iter();
+    while let Some(&byte) = bytes.next() {
+        if byte == b'\\' {
+            if let Some(&escaped) = bytes.next() {
+                key.push(escaped);
+            }
+        } else {
+            key.push(byte);
+        }
+    }
+    key
+}
+
 macro_rules! wrapper {
     ($f:ident) => {
         fn $f<W: Write + ?Sized>(&mut self, writer: &mut W) -> Result<()> {
@@ -238,7 +264,7 @@ impl Formatter for CanonicalFormatter {
         let mut writer = self.writer(writer);
         let mut first = true;
 
-        for (key, value) in object.obj {
+        for (key, value) in object.obj.into_values() {
             CompactFormatter.begin_object_key(&mut writer, first)?;
             writer.write_all(&key)?;
             CompactFormatter.end_object_key(&mut writer)?;
@@ -273,7 +299,7 @@ impl Formatter for CanonicalFormatter {
         let object = self.obj_mut()?;
         let key = std::mem::take(&mut object.next_key);
         let value = std::mem::take(&mut object.next_value);
-        object.obj.insert(key, value);
+        object.obj.insert(sort_key(&key), (key, value));
         Ok(())
     }
 
